@@ -47,6 +47,20 @@ impl Compiler {
                 )
                 .into());
             }
+            // only a name that is declared can be assigned: the program's own globals, names its
+            // imports grant and globals of earlier inputs of the session; anything else used to
+            // create a global on the spot (or overwrite a private global of an imported module)
+            if !self.globals.contains_key(name)
+                && !self.known_globals.contains(name)
+                && !self.global_indices.contains_key(name)
+            {
+                return Err(CompileError::new(
+                    CompileErrorKind::UndefinedVariable(name.to_string()),
+                    span,
+                    self.source.clone(),
+                )
+                .into());
+            }
             // For assignments to user-defined globals, use raw index without translation
             let idx = self.get_or_create_global_index_raw(name)?;
             self.accessed_globals.insert(name.to_string());
